@@ -6,7 +6,7 @@
    model (the parse∘format clause and "conversion to a zone keeps the instant" for
    real IANA zones rest on the correspondence/oracle only). *)
 From Coq Require Import QArith Qabs ZArith String.
-From NV Require Import Time.Model Time.Proofs.
+From NV Require Import Gen.TimeLimits Time.Model Time.Proofs.
 
 (* (t + d) - d is t again; (t + d) - t is d rounded to whole nanoseconds, i.e.
    within half a nanosecond of d. *)
@@ -61,13 +61,21 @@ Theorem C19_zoned_add_sub : forall (d d' : zoned) q, in_range (fst d) = true ->
 Proof. exact zoned_add_sub. Qed.
 Print Assumptions C19_zoned_add_sub.
 
+(* The range constants come from the running implementation (Gen/TimeLimits.v, regenerated on every
+   run); this table lemma is what the development needs of them. *)
+Theorem C19_limits_sane :
+  (ts_min < 0 < ts_max)%Z /\ (0 <= Gen.TimeLimits.gen_ts_max_subsec_ns < ns_per_s)%Z /\ (0 < span_sec_max < i64_max)%Z
+  /\ in_range 0 = true /\ in_range (ts_max + 1) = false /\ in_range (ts_min - 1) = false.
+Proof. exact limits_sane. Qed.
+Print Assumptions C19_limits_sane.
+
 (* Non-vacuity: 2000-01-01T00:00:00Z + 1.5000000004 s, and the two range errors *)
 Example C19_ex :
   in_range 946684800000000000 = true
   /\ add_dt 946684800000000000 (15000000004 # 10000000000) = Ok 946684801500000000%Z
   /\ add_dt 946684800000000000 (-(25 # 10)) = Ok 946684797500000000%Z
   /\ add_dt ts_max (1 # 1) = Err DateTimeOutOfRange
-  /\ add_dt 0 (631107417601 # 1) = Err DurationOutOfRange
+  /\ add_dt 0 (inject_Z (span_sec_max + 1)) = Err DurationOutOfRange
   /\ zadd (tz_convert (946684800000000000%Z, "UTC"%string) "Asia/Kolkata"%string) (3 # 2)
      = Ok (946684801500000000%Z, "Asia/Kolkata"%string).
 Proof. vm_compute. repeat split; reflexivity. Qed.
